@@ -1027,6 +1027,14 @@ func (e *env) replenishScenario(pools bool, accounts []proto4.Account, target ty
 			}
 			resp(out).Deposits = ds
 		}},
+		mutation{1, "Deposits", "repeat-requested-accounts-at-target", func(out []rhpc.Msg) {
+			// more entries than accounts, every entry naming a REQUESTED account, each within target
+			var ds []proto4.AccountDeposit
+			for i := 0; i < 2*len(accounts)+1; i++ {
+				ds = append(ds, proto4.AccountDeposit{Account: accounts[i%len(accounts)], Amount: target})
+			}
+			resp(out).Deposits = ds
+		}},
 		mutation{1, "Deposits", "truncate", func(out []rhpc.Msg) { d := resp(out).Deposits; resp(out).Deposits = d[:len(d)-1] }},
 		mutation{1, "Deposits", "other-account", func(out []rhpc.Msg) { resp(out).Deposits[0].Account = stranger }},
 		mutation{1, "Deposits", "empty", func(out []rhpc.Msg) { resp(out).Deposits = nil }},
